@@ -117,54 +117,17 @@ def check_epoch(prop: str, res: Result, repo: Repo):
     # unit table
     t2 = repo.func("hexital.utils.timeframe", "timeframe_to_timedelta")
     want = {"S": "seconds", "T": "minutes", "H": "hours", "D": "days"}
-    got = {}
-    from .structure import stmt_paths as _sp
+    from .tdeval import TD, SymN, evaluate_prefix
 
-    def _prefix_test(test):
-        """(constant, receiver text, positive?) of a `<x>.startswith("K")` test, possibly negated"""
-        pos = True
-        while isinstance(test, ast.UnaryOp) and isinstance(test.op, ast.Not):
-            test, pos = test.operand, not pos
-        if isinstance(test, ast.Call) and call_name(test) == "startswith" and test.args and isinstance(test.args[0], ast.Constant) and isinstance(test.func, ast.Attribute):
-            return test.args[0].value, ast.unparse(test.func.value), pos
-        return None
-
-    for p in _sp(t2.node.body):
-        ret = next((x for x in reversed(p) if isinstance(x, ast.Return)), None)
-        if ret is None or not (isinstance(ret.value, ast.Call) and call_name(ret.value) == "timedelta" and len(ret.value.keywords) == 1):
-            continue
-        taken = [(_prefix_test(item[1].test), item[2]) for item in p if isinstance(item, tuple) and item[0] == "if" and _prefix_test(item[1].test) is not None]
-        holds = [(k, recv) for (k, recv, pos), truth in taken if pos == truth]
-        if not holds:
-            continue
-        k, recv = holds[-1]
-        kw = ret.value.keywords[0]
-        # the number is the rest of the very string whose prefix was tested
-        got[k] = (kw.arg, ast.unparse(kw.value).replace(" ", "").replace(recv, "<tf>"))
-    if not got:
-        # table form:  UNIT = {"S": "seconds", ...}[prefix] ; return timedelta(**{UNIT: int(tf[1:])})
-        tables = {}
-        for st in tf.tree.body:
-            if isinstance(st, ast.Assign) and len(st.targets) == 1 and isinstance(st.targets[0], ast.Name) and isinstance(st.value, ast.Dict) and st.value.keys and all(isinstance(k_, ast.Constant) and isinstance(v_, ast.Constant) for k_, v_ in zip(st.value.keys, st.value.values)):
-                tables[st.targets[0].id] = {k_.value: v_.value for k_, v_ in zip(st.value.keys, st.value.values)}
-        rets = [n for n in ast.walk(t2.node) if isinstance(n, ast.Return) and isinstance(n.value, ast.Call) and call_name(n.value) == "timedelta" and not n.value.args and len(n.value.keywords) == 1 and n.value.keywords[0].arg is None and isinstance(n.value.keywords[0].value, ast.Dict) and len(n.value.keywords[0].value.keys) == 1]
-        ldefs = {n.targets[0].id: n.value for n in ast.walk(t2.node) if isinstance(n, ast.Assign) and len(n.targets) == 1 and isinstance(n.targets[0], ast.Name)}
-        if len(rets) == 1:
-            key_e, val_e = rets[0].value.keywords[0].value.keys[0], rets[0].value.keywords[0].value.values[0]
-            unit_def = ldefs.get(key_e.id) if isinstance(key_e, ast.Name) else key_e
-            if isinstance(unit_def, ast.Subscript) and isinstance(unit_def.value, ast.Name) and unit_def.value.id in tables:
-                num = ast.unparse(val_e).replace(" ", "")
-                import re as _re
-
-                m_ = _re.fullmatch(r"int\((\w+)\[1:\]\)", num)
-                if m_ and m_.group(1) in ast.unparse(unit_def.slice):
-                    for k_, u_ in tables[unit_def.value.id].items():
-                        got[k_] = (u_, "int(<tf>[1:])")
     for k, unit in want.items():
-        if k in got and got[k][0] == unit and got[k][1] in ("int(<tf>[1:])",):
-            res.ok(rule, {"site": t2.where, "unit": f"{k} -> timedelta({unit}=int(rest))"})
+        kind, v = evaluate_prefix(repo, t2, k)
+        if kind == "undecided":
+            res.errors.append(f"{t2.where}: timeframe_to_timedelta cannot be evaluated for a name with prefix {k!r} ({v}): the unit table cannot be decided")
+        elif kind == "return" and isinstance(v, TD) and v.unit == unit and isinstance(v.amount, SymN) and v.amount.coeff == 1:
+            res.ok(rule, {"site": t2.where, "unit": f"{k}<n> -> timedelta({unit}=n)", "how": "partial evaluation of the parser for this prefix"})
         else:
-            res.fail(rule, finding(prop, rule, t2, t2.node, f"timeframe prefix {k!r} must map to timedelta({unit}=int(...)); found {got.get(k)}", construct=f"timeframe_to_timedelta: {k}"))
+            got_txt = repr(v) if kind == "return" else f"raise {v}"
+            res.fail(rule, finding(prop, rule, t2, t2.node, f"timeframe prefix {k!r} must map to timedelta({unit}=int(...)); a name {k}<n> gives {got_txt}", construct=f"timeframe_to_timedelta: {k}"))
 
 
 # ---------------------------------------------------------------------------
